@@ -624,10 +624,25 @@ impl Xot {
                 }
             }
         }
+        // generated prefixes must not collide with prefixes that are in scope
+        // here or declared anywhere below, or they would take a binding away
+        // from names that depend on it
+        let mut prefixes_in_use: HashSet<PrefixId> =
+            self.namespaces_in_scope(node).map(|(p, _)| p).collect();
+        for descendant in self.descendants(node) {
+            prefixes_in_use.extend(self.namespaces(descendant).keys());
+        }
         let mut prefixes_to_add = HashMap::default();
-        for (i, namespace_id) in missing_namespace_ids.iter().enumerate() {
-            let prefix = format!("n{}", i);
-            let prefix_id = self.add_prefix(&prefix);
+        let mut i = 0;
+        for namespace_id in missing_namespace_ids.iter() {
+            let prefix_id = loop {
+                let prefix = format!("n{}", i);
+                i += 1;
+                let prefix_id = self.add_prefix(&prefix);
+                if !prefixes_in_use.contains(&prefix_id) {
+                    break prefix_id;
+                }
+            };
             prefixes_to_add.insert(prefix_id, namespace_id);
         }
         let mut namespaces = self.namespaces_mut(node);
